@@ -4,12 +4,14 @@
 EXTENDS MCRenderCtxRegistry
 CONSTANT HistLen
 VARIABLES hist, printed
+\* the mode a context was created in (winit = a fresh context that WithNonce has initialised since)
+CreatedAs(m) == IF m = "winit" THEN "fresh" ELSE m
 SimInit == Init /\ hist = <<>> /\ printed = FALSE
 \* the behaviour is printed by a final deterministic step, i.e. once for the state the simulator actually chose
 \* (an invariant would be evaluated, and print, for every candidate successor)
 \* \E over singletons binds each random draw once, so that one step costs one evaluation (every step is a Next step)
 SimStep ==
-    \E c \in {RandomElement(CtxSet)}, kd \in {RandomElement(1..10)}, s \in {RandomElement(Scripts)}, S \in {RandomElement(OnSeqs)},
+    \E c \in {RandomElement(CtxSet)}, kd \in {RandomElement(1..11)}, s \in {RandomElement(Scripts)}, S \in {RandomElement(OnSeqs)},
        e \in {RandomElement(ClassExprs)}, k \in {RandomElement(Classes)}, h \in {RandomElement(BlockHandles)},
        g \in {RandomElement(FixedHandles)} :
         IF kd = 1 THEN RenderScriptComponent(c, s)
@@ -19,6 +21,7 @@ SimStep ==
         ELSE IF kd = 7 THEN Once(c, "OnceWithBlock", h)
         ELSE IF kd = 8 THEN Once(c, "OnceWithComponent", g)
         ELSE IF kd = 9 /\ \E d \in CtxSet : mode[d] = "mw" THEN StylesheetRequest
+        ELSE IF kd = 11 /\ nonce[c] < MaxNonces THEN SetNonce(c)          \* WithNonce at a random point of the history
         ELSE ElementWithOnAttrs(c, S)
 SimNext == \/ /\ Len(hist) < HistLen
               /\ SimStep
@@ -26,6 +29,6 @@ SimNext == \/ /\ Len(hist) < HistLen
               /\ UNCHANGED printed
            \/ /\ Len(hist) = HistLen /\ ~printed
               /\ printed' = TRUE
-              /\ PrintT(<<"HIST", ToJson([modes |-> [j \in 1..Len(Ctxs) |-> mode[Ctxs[j]]], hist |-> hist])>>)
-              /\ UNCHANGED <<mode, emitted, defd, n, lbl, hist>>
+              /\ PrintT(<<"HIST", ToJson([modes |-> [j \in 1..Len(Ctxs) |-> CreatedAs(mode[Ctxs[j]])], hist |-> hist])>>)
+              /\ UNCHANGED <<mode, emitted, defd, nonce, n, lbl, hist>>
 =============================================================================
